@@ -69,6 +69,16 @@ impl<'a> G<'a> {
             opts.push(E::Prop(Box::new(E::Id(i.clone())), "counter".into()));
             opts.push(E::Prop(Box::new(E::Id(i.clone())), "extra".into()));
         }
+        if self.r.chance(1, 12) {
+            // the chain's clock: instants around the chain point, on and off slot boundaries, before and after it
+            let t0 = crate::store::CURSOR_TIME as i64;
+            let s0 = crate::store::CURSOR_SLOT as i64;
+            return match self.r.below(3) {
+                0 => E::Call("time_to_slot".into(), vec![E::Num(t0 + *self.r.pick(&[-2500i64, -1000, -1, 0, 1, 592, 999, 1000, 1999, 123_456]))]),
+                1 => E::Call("slot_to_time".into(), vec![E::Num(s0 + *self.r.pick(&[-3i64, 0, 1, 600]))]),
+                _ => E::Call("tip_slot".into(), vec![]),
+            };
+        }
         if self.r.chance(1, 10) {
             let n = 1 + self.r.below(3) as usize;
             let xs: Vec<E> = (0..n).map(|_| E::Num(self.r.range(-9, 99))).collect();
